@@ -5,8 +5,10 @@
 set -euo pipefail
 V=${1:-asan}
 ROOT=$(cd "$(dirname "$0")/.." && pwd)
-B=$ROOT/build/$V
 REPO=${VERIF_REPO:-/repo}
+B=$ROOT/build/$V
+# a scratch copy of the repository (mutation experiments) gets its own build dir
+if [ "$REPO" != "/repo" ]; then B=$ROOT/build/$V-$(echo "$REPO" | md5sum | cut -c1-8); fi
 mkdir -p "$B"
 case $V in
   asan)    CF="-g -O1 -fno-omit-frame-pointer -fsanitize=address -DLIBEVENT_VERIF" ;;
@@ -25,3 +27,4 @@ if [ ! -f "$B/build.ninja" ]; then
     -DEVENT__DISABLE_MBEDTLS=ON -DEVENT__DISABLE_OPENSSL=ON >"$B/cmake.log" 2>&1 || { cat "$B/cmake.log" >&2; exit 2; }
 fi
 ninja -C "$B" >"$B/ninja.log" 2>&1 || { tail -50 "$B/ninja.log" >&2; exit 2; }
+echo "$B"
